@@ -305,6 +305,8 @@ fn suffix_cases<B: Backend, P: Prims>(opts: &Opts, rep: &mut Report, idx: &mut u
     let n = if B::VER == 1 { opts.size(200, 2000) } else { opts.size(1500, 20000) };
     let mut krng = Rng::derive(opts.seed, &stream, 0);
     let sk_raw = B::gen_secret(&mut krng);
+    let kp_held = KeyPair::<B>::from_raw(Purp::Public, &sk_raw).expect("key");
+    let pk_held_raw = kp_held.raw().1;
     for _ in 0..n {
         *idx += 1;
         if !opts.mine(*idx) {
@@ -318,8 +320,16 @@ fn suffix_cases<B: Backend, P: Prims>(opts: &Opts, rep: &mut Report, idx: &mut u
         let aad = gen_aad::<B>(&mut rng);
         let key: [u8; 32] = rng.arr();
         let nonce = rng.bytes(B::LOCAL_NONCE);
+        // the same held key object under the *plain* encoding, alternating with the suffixed one below
+        if let Ok(Ok(t)) = guard(|| kp_held.seal(&msg, &footer, &aad)) {
+            let (_, body, f) = split_token(&t);
+            if r::public_verify::<P>(B::VER, &pk_held_raw, &body, &f, &aad).as_deref() != Some(&msg[..]) {
+                rep.violation(&format!("C03|{}|public|independent-verifier-rejects:plain-after-suffixed-on-one-key-object", B::NAME), json!({"backend": B::NAME, "token": t.chars().take(300).collect::<String>()}));
+            }
+        }
         let kl = KeyPair::<B>::Local(local_key::<B>(&key));
-        let kp = KeyPair::<B>::from_raw(Purp::Public, &sk_raw).expect("key");
+        // the signing key object is held across all cases (and used with both payload encodings, see below)
+        let kp = &kp_held;
         let detail = |what: &str, tok: &str| json!({"backend": B::NAME, "payload_suffix": "x", "key": hx(&key), "nonce": hx(&nonce), "msg": hx_short(&msg), "footer": hx_short(&footer), "aad": hx_short(&aad), "what": what, "token": tok.chars().take(300).collect::<String>()});
         r::set_suffix("x");
         let want = join_token(&kl.header_x(), &r::local_seal::<P>(B::VER, &key, &nonce, &msg, &footer, &aad), &footer);
